@@ -146,6 +146,51 @@ def qlit(v):
     return "(%s # %d)" % ("%d" % n if n >= 0 else "(%d)" % n, d)
 
 
+def fresh_lists(body, params):
+    """names of the function body that always hold a list created by the function itself and never shared:
+    every assignment to them is a list display, a comprehension, sorted(..), list(..), a slice, a + b, random.sample(..)
+    or the result of a call, and they are never the source of `y = x`.  Only such lists may be changed in place
+    (append / extend / pop / shuffle): the generated definitions treat lists as values, so an in-place change of a
+    list that is also reachable under another name (or belongs to the caller) would be mistranslated."""
+    def fresh(e):
+        if isinstance(e, (ast.List, ast.ListComp)):
+            return True
+        if isinstance(e, ast.BinOp) and isinstance(e.op, ast.Add):
+            return True
+        if isinstance(e, ast.Subscript) and isinstance(e.slice, ast.Slice):
+            return True
+        if isinstance(e, ast.Call):
+            return True         # builtins and translated functions return new lists (random.choice returns an element)
+        return False
+    def sources(e):
+        if isinstance(e, ast.Name):
+            return {e.id}
+        if isinstance(e, ast.IfExp):
+            return sources(e.body) | sources(e.orelse)
+        if isinstance(e, ast.BoolOp):
+            return set().union(*[sources(v) for v in e.values])
+        if isinstance(e, (ast.Tuple, ast.List)):
+            return set().union(*[sources(v) for v in e.elts]) if e.elts else set()
+        return set()
+    good, bad = set(), set(params)
+    for n in FnTr.own_nodes(body):
+        if isinstance(n, ast.Assign):
+            for t in n.targets:
+                if isinstance(t, ast.Name):
+                    (good if fresh(n.value) else bad).add(t.id)
+                else:
+                    bad.update(x.id for x in ast.walk(t) if isinstance(x, ast.Name))
+            # a name that may BE the value (y = x, y = a if c else b, y = a or b, tuples of these) is shared from now on
+            bad.update(sources(n.value))
+        elif isinstance(n, ast.AugAssign):
+            bad.update(x.id for x in ast.walk(n.target) if isinstance(x, ast.Name))
+        elif isinstance(n, ast.For):
+            bad.update(x.id for x in ast.walk(n.target) if isinstance(x, ast.Name))
+        elif isinstance(n, ast.comprehension):
+            bad.update(x.id for x in ast.walk(n.target) if isinstance(x, ast.Name))
+    return good - bad
+
+
 class Scope(object):
     """what `return` / falling off the end / `break` / `continue` mean where a block is compiled"""
     def __init__(self, ret=None, fall=None, brk=None, cont=None):
@@ -166,6 +211,7 @@ class FnTr(object):
         self.counter = counter if counter is not None else [0]
         self.rettype = None
         self.uses_w = False
+        self.mutable = set()          # locals that may be changed in place (see fresh_lists)
 
     # ---- helpers ---------------------------------------------------------------------------------
     def temp(self):
@@ -178,6 +224,7 @@ class FnTr(object):
         s.lit_origin = set(self.lit_origin)
         s.rettype = self.rettype
         s.owner = getattr(self, "owner", self)
+        s.mutable = self.mutable
         return s
 
     def note_w(self, node):
@@ -956,6 +1003,9 @@ class FnTr(object):
             t = self.env.get(name)
             if not is_list(t or ""):
                 refuse(s, ".%s on %s of type %s" % (kind, name, t))
+            if name not in self.mutable:
+                refuse(s, "in-place change (.%s) of the list %s, which may be shared (a parameter, or bound by `x = y`)"
+                       % (kind, name))
             if kind == "shuffle":
                 if t == "list ?":
                     refuse(s, "shuffle of an empty list display")
@@ -1010,6 +1060,8 @@ class FnTr(object):
                 if len(value.elts) != len(names):
                     refuse(s, "tuple sizes differ")
                 vals = [self.settle(s, *self.pure(x, "element of a parallel assignment")) for x in value.elts]
+                if any(is_list(t) for _, t in vals):
+                    refuse(s, "parallel assignment of lists")
                 for n, (_, t) in zip(names, vals):
                     self.bind_local(s, n, t)
                 return pad + "let '(%s) := (%s) in\n" % (", ".join(cn(n) for n in names), ", ".join(v for v, _ in vals)) + \
@@ -1025,6 +1077,8 @@ class FnTr(object):
             refuse(s, "assignment target")
         name = target.id
         v, t = self.expr(value, binds)
+        if isinstance(s, ast.AugAssign) and is_list(t):
+            refuse(s, "augmented assignment to a list (an in-place change)")
         lit = (t == "int")
         if lit and self.hints.get(name) == "Q":
             v, t, lit = self.coerce(s, v, t, "Q"), "Q", False
@@ -1214,6 +1268,7 @@ class FnTr(object):
         for p, t in params:
             f.env[p] = t
         f.lit_origin = set()
+        f.mutable = fresh_lists(d.body, [p for p, _ in params])
         body = f.block(list(d.body), Scope(ret=True), ind + 2)
         if f.uses_w:
             getattr(self, "owner", self).uses_w = True
@@ -1300,6 +1355,7 @@ def translate_function(fn, top, glob, name, params, needs_w):
         tr.owner = tr
         for p in params:
             tr.env[p] = PARAM_TYPES[p]
+        tr.mutable = fresh_lists(fn.body, params)
         try:
             body = tr.block(list(fn.body), Scope(ret=True), 1)
         except Retype as r:
